@@ -6,6 +6,7 @@
 #include "shape.hpp"
 
 #include <algorithm>
+#include <functional>
 #include <string>
 #include <vector>
 
@@ -151,6 +152,23 @@ inline Node gen_node(const SchemaShape& sh, int level, sim::Rng& r, const TreePa
     n.level = level;
     n.block.resize((std::size_t)wire_bl);
     for(auto& b : n.block) b = (u8)r.next();
+    // random bytes almost never form a declared enum value: give enum members (also inside composites)
+    // one of their valid values half of the time, so that value tags - not only the unknown tag - occur
+    {
+        std::function<void(const MemberShape&, u64)> fix = [&](const MemberShape& m, u64 abs) {
+            if(m.kind == K_ENUM && m.aux >= 0 && !sh.valuesets[(std::size_t)m.aux].empty() && abs + m.size <= n.block.size())
+            {
+                if(r.chance(1, 2))
+                {
+                    const auto& vs = sh.valuesets[(std::size_t)m.aux];
+                    wr(&n.block[abs], (int)m.size, sh.big, vs[r.below(vs.size())].value);
+                }
+            }
+            else if(m.kind == K_COMPOSITE)
+                for(auto& cm : sh.comps[(std::size_t)m.comp].members) fix(cm, abs + cm.offset);
+        };
+        for(auto& f : lv.fields) fix(f, f.offset);
+    }
     for(auto& gs : lv.groups)
     {
         GroupInst g;
